@@ -35,6 +35,10 @@ Payload(id) ==
     [] id = "M2" -> [ok |-> TRUE, items |-> <<KV("/m2", "/src2|tmpfs|"), KV("/m2/sub", "/src3|bind|rw")>>]
     [] id = "M3" -> [ok |-> TRUE, items |-> <<KV("/m3", "/src4|bind|")>>]
     [] id = "M4" -> [ok |-> TRUE, items |-> <<KV("/m4", "/src5|bind|ro")>>]
+    [] id = "M5" -> [ok |-> TRUE, items |-> <<KV("/m5", "/src6||")>>]                      \* no type given: none invented
+    \* the same type twice (in two spellings): the adjuster passes on one entry per limit given, and NRI refuses an
+    \* adjustment that sets one rlimit twice - nothing is silently merged, the request fails
+    [] id = "Udup" -> [ok |-> FALSE, items |-> <<>>]
     [] id = "C1" -> [ok |-> TRUE, items |-> <<"vendor.com/dev=a">>]
     [] id = "C2" -> [ok |-> TRUE, items |-> <<"vendor.com/dev=b", "other.io/gpu=0">>]
     [] id = "C3" -> [ok |-> TRUE, items |-> <<"vendor.com/dev=c">>]
@@ -108,6 +112,8 @@ Combined ==
   \cup {[ctr |-> "c1", anns |-> {Ann("ulim", "ctr", "c1", "Uempty")}], [ctr |-> "c1", anns |-> {}]}
   \* a present but empty annotation selects its scope: nothing of that kind is injected, less specific ones are not consulted
   \cup UNION {EmptyCases(n, k, sp) : n \in {"c1", "a.b"}, k \in {"dev", "mnt", "cdi"}, sp \in {"ctr", "pod"}}
+  \cup {[ctr |-> "c1", anns |-> {Ann("mnt", "ctr", "c1", "M5")}], [ctr |-> "c1", anns |-> {Ann("mnt", "pod", "", "M5"), Ann("dev", "ctr", "c1", "D1")}],
+        [ctr |-> "c1", anns |-> {Ann("ulim", "ctr", "c1", "Udup")}]}
   \* unlimited on either side of a limit
   \cup {[ctr |-> "c1", anns |-> {Ann("ulim", "ctr", "c1", u)} \cup x] :
           u \in {"Uinf1", "Uinf2", "Uinf3", "Uinf4"}, x \in {{}, {Ann("dev", "ctr", "c1", "D1")}}}
